@@ -14,7 +14,7 @@
 Byte-for-byte equality of two runs as such is NOT decided.
 """
 from facts import ASSIGN_OPS, AnalysisBroken, access_path, strip_casts, unparse, root_var
-from flow import Facts
+from flow import atom, Facts
 from callgraph import CallGraph
 from rules_common import where
 
@@ -254,7 +254,7 @@ def run(ctx):
 
 def _once_guarded(f):
     for m in f.walk():
-        if m.k == "IfStmt" and m.c[0] is not None and strip_casts(m.c[0]).k == "DeclRefExpr" and strip_casts(m.c[0]).get("dk") == "static_local":
+        if m.k == "IfStmt" and m.c[0] is not None and atom(m.c[0], True)[1] is True and atom(m.c[0], True)[0] is not None and atom(m.c[0], True)[0].k == "DeclRefExpr" and atom(m.c[0], True)[0].get("dk") == "static_local":
             if m.c[1] is not None and any(x.k == "ReturnStmt" for x in m.c[1].walk()):
                 return True
     return False
